@@ -3,9 +3,11 @@ CONSTANTS
   ReqV4 = {"f1"}
   ReqV6 = {"s1"}
   ReqDual = {"d1", "d2"}
-  Reloads = {"m1", "m2"}
+  Reloads = {"m1", "m2", "m3"}
   ToB = {"m1"}
+  Bad = {"m2"}
+  ReloadOrder = "load-first"
   Protocol = "single"
-INVARIANTS TypeOK WholeGeneration ResponseComplete LockBalance MutualExclusion SelectUnderReadLock NoLeakAtEnd
-PROPERTIES EventuallyAllDone
+INVARIANTS TypeOK WholeGeneration ResponseComplete LockBalance MutualExclusion SelectUnderReadLock NoLeakAtEnd FailedReloadHoldsNothing
+PROPERTIES EventuallyAllDone FailedReloadInstallsNothing
 CHECK_DEADLOCK TRUE
